@@ -20,7 +20,7 @@ def correspondence(ctx):
     for l in lists:
         for cap in (["random", "one"] + [rng.choice(wlgen.CAPS)]):
             sep = rng.choice([("char", "-"), ("preset", "SFDigits1"), ("preset", "SFSymbols"), ("const", ""), ("recipe", wlgen.Recipe(2, allow=4, require_sets=["357"]))])
-            L = rng.choice([1, 2, 3, 5])
+            L = rng.choice([1, 2, 3, 5, 5, 31, 32, 33, 63, 64, 65, 200])     # also across the word sizes a shifted bonus would overflow
             st = wlgen.sep_tokens(sep)
             if sep[0] != "char" and rng.random() < 0.25:
                 st = "both %s %s" % (core.hx(rng.choice(["-", "+", "é"])), st)      # SeparatorChar set as well: the function is the one used
